@@ -156,3 +156,17 @@ Proof.
     rewrite I2 in Hall. inversion Hall as [|? ? Hy _]; subst.
     unfold Rmax. destruct (Rle_dec x (last (y :: r) 0)); lra.
 Qed.
+
+(** certificates for min/max of a concrete list (used by the correspondence files) *)
+Lemma lmin_is l m : In m l -> Forall (fun x => m <= x) l -> lmin l = m.
+Proof.
+  intros Hin Hall. assert (Hne : l <> []) by (intros E; subst l; destruct Hin).
+  destruct (lmin_spec l Hne) as [I1 I2].
+  rewrite Forall_forall in Hall, I2. specialize (Hall _ I1). specialize (I2 _ Hin). lra.
+Qed.
+Lemma lmax_is l m : In m l -> Forall (fun x => x <= m) l -> lmax l = m.
+Proof.
+  intros Hin Hall. assert (Hne : l <> []) by (intros E; subst l; destruct Hin).
+  destruct (lmax_spec l Hne) as [I1 I2].
+  rewrite Forall_forall in Hall, I2. specialize (Hall _ I1). specialize (I2 _ Hin). lra.
+Qed.
